@@ -156,6 +156,9 @@ class Acelyzer:
         except FileNotFoundError:
             sys.exit(1)
 
+        # events parked at the module-level barrier by an earlier, aborted run must not leak into this one
+        event_pipe._main_barrier_context.drain()
+
         # create event processor
         profile = StageProfile.from_json(self.args.profile)
         intermediate_file = self.args.output if self.args.intermediate else None
